@@ -15,8 +15,17 @@ sys.path.insert(0, str(ROOT / "harness"))
 
 MODES = ["ok", "raise", "exit3", "exit0", "base"]
 # bodies that fork once: <outcome of the body>+<how the child leaves> (quit = os._exit, exit0 / exit3 = sys.exit, raise)
-FORKS = ["ok+quit", "ok+exit0", "ok+exit3", "ok+raise", "raise+quit", "raise+exit0"]
-CEXIT = dict(quit="CQuit", exit0="(CExit 0)", exit3="(CExit 3)", **{"raise": "CRaise"})
+FORKS = ["ok+quit", "ok+exit0", "ok+exit3", "ok+raise", "raise+quit", "raise+exit0", "ok+return"]
+CEXIT = dict(quit="CQuit", exit0="(CExit 0)", exit3="(CExit 3)", **{"raise": "CRaise", "return": "CReturn"})
+FILE_EFFECTS = {"TouchDone", "WriteFailed", "RmPid", "RmFailed", "Lock", "Unlock"}
+
+
+def child_seen(l):
+    """what is compared with the model for a forked child: the three steps of the at-fork hook, then what it does to the
+    files of the job directory (a child that returns through the runner restores its own handlers once more: private)"""
+    ch = l.get("child", [])
+    return ch[:3] + [e for e in ch[3:] if e in FILE_EFFECTS]
+
 SUCCESS = {"ok", "exit0"}
 
 
@@ -62,7 +71,7 @@ def g_launch(l):
     return (f"{{| l_out := {OUTCOME[pmode(l['mode'])]}; l_death := {death}; l_pre := {glist(g_ev(e) for e in l['pre'])}; "
             f"l_post := {glist(g_ev(e) for e in l['post'])}; l_obs := {g_obs(l['obs'])}; "
             f"l_waiter := {g_waiter(l.get('waiter'))}; l_again := {gbool(bool(l.get('killed_again')))}; "
-            f"l_fork := {g_fork(l['mode'])}; l_child := {glist(g_ev(e) for e in l.get('child', []))} |}}")
+            f"l_fork := {g_fork(l['mode'])}; l_child := {glist(g_ev(e) for e in child_seen(l))} |}}")
 
 
 def g_case(case):
@@ -85,8 +94,14 @@ def oracle_history(launches):
             tainted = True
             yield ("C10:marker-written-by-forked-child", "a process forked by the task body (it left through %s) did %s in the job "
                    "directory while the job process was still in its body" % (
-                       {"exit0": "sys.exit(0)", "exit3": "sys.exit(3)", "raise": "an exception", "quit": "os._exit"}.get(
+                       {"exit0": "sys.exit(0)", "exit3": "sys.exit(3)", "raise": "an exception", "quit": "os._exit",
+                        "return": "returning from the body"}.get(
                            l["mode"].split("+")[-1], "?"), ", ".join(wrote)), i)
+        mid = l.get("mid")
+        if mid and not wrote and (mid["done"] or mid["failed"] or not mid["pid"]):
+            tainted = True
+            yield ("C10:marker-written-by-forked-child", "right after the child forked by the body was gone, the job process being "
+                   "in the middle of its body, the directory showed done=%s failed=%s pid=%s" % (mid["done"], mid["failed"], mid["pid"]), i)
         if tainted:   # (what the markers say from here on has been reported under that key)
             before = a
             continue
@@ -136,7 +151,7 @@ def oracle_history(launches):
                 yield ("C10:done-without-completed-body", how + ", changed the success marker", i)
         # a job that ended on its own leaves no pid file
         if not l["fired"] and a["pid"]:
-            cls = "done-preexisting" if before["done"] else l["mode"]
+            cls = ("done-preexisting" if before["done"] else l["mode"]) + (":notification-raises" if l.get("eoj") == "garbage" else "")
             yield (f"C10:pid-left:{cls}", "the job ended on its own and left its pid file behind "
                    f"({'success marker already there' if before['done'] else 'body outcome ' + l['mode']})", i)
         before = a
@@ -149,6 +164,8 @@ def relaunches(rng, quick):
     out = []
     for j in range(k):
         l = dict(mode=rng.choice(MODES + ["ok", "ok"] + ([rng.choice(FORKS)] if rng.random() < 0.5 else [])))
+        if rng.random() < 0.12:
+            l["eoj"] = rng.choice(["garbage", "garbage", "refused"])   # the end-of-job notification raises / is refused
         if j < k - 1 and rng.random() < 0.6:
             l.update(sig=rng.choice(SIGNALS), n=rng.randrange(1, 92))
         out.append(l)
@@ -186,6 +203,32 @@ def fork_cases(c, refs):
             out.append(dict(kind="fork", prefix=r["prefix"], mode=r["mode"],
                             launches=[dict(mode=m) for m in PREFIXES[r["prefix"]]] + [dict(mode=r["mode"], sig=sig, n=n)]
                             + relaunches(c.rng, True)))
+    return out
+
+
+def eoj_cases(c, refs):
+    """The end-of-job notification (report_eoj, the last step of cleanup) raises - an entry of the job's .notifications
+    folder that cannot be read - or is refused: jobs that end by themselves with every outcome, and deaths from the
+    first body line on (handler, except clauses, exit callback all go through cleanup)."""
+    out = []
+    for r in refs:
+        if r["prefix"] == "done" or (r["prefix"] == "stale-failed" and r["mode"] != "ok") or r["mode"] in FORKS[2:]:
+            continue
+        if c.quick and (r["mode"] in ("exit0", "base", "ok+exit0") or r["prefix"] != "fresh"):
+            continue
+        pre = [dict(mode=m) for m in PREFIXES[r["prefix"]]]
+        for how in (["garbage"] if c.quick and r["mode"] not in ("ok", "raise") else ["garbage", "refused"]):
+            out.append(dict(kind="eoj", prefix=r["prefix"], mode=r["mode"], launches=pre + [dict(mode=r["mode"], eoj=how)] + relaunches(c.rng, True)))
+        lines = r["ans"][-1]["lines"]
+        body = [n for n, t in enumerate(lines, 1) if t.startswith("task:")]
+        if not body or "+" in r["mode"]:
+            continue
+        ns = range(body[0], len(lines) + 1)
+        pts = c.rng.sample(ns, min(len(ns), 3 if r["mode"] in ("ok", "raise") else 0)) if c.quick else ns[c.rng.randrange(2)::2]
+        for n in pts:
+            for sig in ([c.rng.choice(SIGNALS)] if c.quick else ["TERM", "INT"]):
+                out.append(dict(kind="eoj", prefix=r["prefix"], mode=r["mode"],
+                                launches=pre + [dict(mode=r["mode"], sig=sig, n=n, eoj="garbage")] + relaunches(c.rng, True)))
     return out
 
 
@@ -265,7 +308,7 @@ def run(c: Check):
     c.rule = ("every (initial directory: fresh / success marker present / stale failure marker) x body outcome "
               "(return, exception, sys.exit(3), sys.exit(0), other BaseException) x signal (KILL, TERM, INT) x "
               "n-th executed line of run.py or of the task body (lines before the body only for the outcome `return`, the other outcomes from the first body line on; "
-              "quick: every 4th line plus all body points; thorough: every line; on a directory with a stale failure "
+              "quick: every 5th line (6th on the two other directories) plus all body points; thorough: every line; on a directory with a stale failure "
               "marker 2 resp. 3 of the outcomes), followed by 1-3 relaunches with random outcomes and deaths; "
               "DOUBLE LAUNCHES: a second job process for the same directory is started while the first is held in its body "
               "(latch), its scheduler rewrites the pid file, and it receives KILL/TERM/INT at its n-th executed line, n = 1 .. "
@@ -276,7 +319,9 @@ def run(c: Check):
               "are done; FORKING BODIES: the body forks once (os.fork; the child leaves by os._exit, sys.exit(0), sys.exit(3) or an "
               "exception, the body then returns or raises), death points from the first body line on - quick: for the os._exit "
               "child every body line after the fork x TERM/INT, every 2nd before it, every 4th line after the body; 4 points for "
-              "each other (outcome, child) pair; thorough: every line x 3 signals; non-trivial = the signal was delivered, distinct by (kind, initial directory, outcome, signal, "
+              "each other (outcome, child) pair; thorough: every line x 3 signals; FAILING NOTIFICATIONS: an unreadable entry in "
+              "the job's .notifications folder makes report_eoj (last step of cleanup) raise, or the server refuses: own exits "
+              "with every outcome (forking ones too) and deaths from the first body line on; non-trivial = the signal was delivered, distinct by (kind, initial directory, outcome, signal, "
               "line index / point, second signal)")
     if "model/Runner.v" in (COQ / "_CoqProject").read_text():
         c.build()
@@ -338,6 +383,7 @@ def run(c: Check):
         for g in json.load(open(ROOT / "golden" / "c10.json")):
             cases.append(dict(kind="golden", launches=[resolve(l) for l in g["launches"]]))
         cases.extend(fork_cases(c, refs))
+        cases.extend(eoj_cases(c, refs))
         for r in refs:
             if "+" in r["mode"]:
                 continue
@@ -349,13 +395,14 @@ def run(c: Check):
                 first_body = min([n for n, t in enumerate(lines, 1) if t.startswith("task:")] or [len(lines) + 1])
                 ns = {n for n in ns if n >= first_body}
             if c.quick:
-                off = c.rng.randrange(4)
-                ns = {n for n in ns if n % 4 == off}
+                step = 5 if r["prefix"] == "fresh" else 6
+                off = c.rng.randrange(step)
+                ns = {n for n in ns if n % step == off}
                 if r["prefix"] == "fresh" and r["mode"] in ("ok", "raise"):
                     ns |= {n for n, t in enumerate(lines, 1) if t.startswith("task:")}
             for n in sorted(ns):
                 for sig in SIGNALS:
-                    if c.quick and n % 4 != off and sig == "KILL":
+                    if c.quick and n % step != off and sig == "KILL":
                         continue  # the extra body points are there for the termination signals
                     if c.quick and r["prefix"] != "fresh" and sig != SIGNALS[(n // 4) % 3]:
                         continue  # quick tier: one signal per line on the two other initial directories
@@ -369,6 +416,18 @@ def run(c: Check):
     for x, a in zip(todo, ans):
         x["ans"] = a["launches"]
 
+    # a machine under heavy load can make a job process miss a time limit of the driver: such histories are run once
+    # more, alone, before anything is concluded from them
+    def shaky(x):
+        return any(l.get("hung") or ((l.get("waiter") or {}).get("never_died")) or
+                   (l.get("waiter") and not l["waiter"]["holder_alive"]) for l in x["ans"])
+    again = [x for x in cases if shaky(x)]
+    if again:
+        c.extra["histories_run_again_after_a_time_limit"] = len(again)
+        ans = run_impl("drive_c10.py", dict(scratch=str(scratch / "again"), workers=4, cases=again), timeout=1500)
+        for x, a in zip(again, ans):
+            x["ans"] = a["launches"]
+
     # ---- oracle + evidence
     best = {}
     kill_lines = set()
@@ -379,6 +438,8 @@ def run(c: Check):
                 raise InternalError("a job process did not end within the time limit: %s" % json.dumps(x["launches"]))
             c.count("outcome:" + l["mode"])
             c.count("death:" + (f"{l['sig']}:{l['ctx']}" if l["fired"] else "none"))
+            if l.get("eoj"):
+                c.count("end-of-job-notification:%s:%s" % (l["eoj"], f"death-{l['sig']}" if l["fired"] else "own-exit-" + pmode(l["mode"])))
             if l.get("killed_again"):
                 c.count("second-death:SIGKILL-after-%d-effects-of-the-handling-of-%s" % (len(l["post"]), l["sig"]))
                 c.nontrivial.add(("twice", x.get("prefix"), l["mode"], l["sig"], l["n"], len(l["post"])))
@@ -403,7 +464,7 @@ def run(c: Check):
                 c.count("double-launch:" + ("both-die" if l["fired"] else "holder-ends-by-itself:" + l["mode"]))
                 c.nontrivial.add(("double", x.get("prefix"), l["mode"], w["sig"], w.get("n") or "ext", l["sig"] if l["fired"] else None))
         c.count("launches-per-history=%d" % len(x["ans"]))
-        if x["kind"] in ("sweep", "fork"):
+        if x["kind"] in ("sweep", "fork", "eoj"):
             sw = x["ans"][len(PREFIXES[x["prefix"]])]
             c.count("initial:" + x["prefix"])
             if sw["fired"]:
